@@ -80,7 +80,7 @@ def _instance(emit, name, rng, base, first):
     if p > 2 and rng.random() < 0.3:
         X[:, 1] = X[:, 0]
     X = np.asfortranarray(X)
-    groups = C.make_groups(rng, p, style=str(rng.choice(["contig", "perm"])))
+    groups = C.make_groups(rng, p, style=str(rng.choice(["contig", "perm", "trap"])))
     y = C.make_target(rng, X, C.TARGET_KIND[name], n_tasks=int(rng.integers(1, 4)))
     opts = {}
     if name == "WeightedQuadratic":
